@@ -255,7 +255,11 @@ def step (g : G) (op : R17.Op) (obs : String) : G :=
         else g
       if x.kind == 's' then
         { g with live := g.live.map fun y => if y.slot == s then { y with maybe := true } else y }
-      else { g with live := g.live.filter (·.slot != s) }
+      else
+        -- a closing listener takes its half-open children (known from raw SYN probes) with it
+        { g with live := g.live.filter fun y =>
+            y.slot != s && !(x.kind == 'l' && y.slot ≥ 2000000 && y.host == x.host && y.key.port == x.key.port &&
+              y.key.v6 == x.key.v6 && (x.key.addr.isUnspec || y.key.addr == x.key.addr)) }
     | none => g
   | .usend h s ip port tag =>
     match g.live.find? (·.slot == s) with
@@ -356,8 +360,22 @@ def step (g : G) (op : R17.Op) (obs : String) : G :=
           | .rst => [pre ++ "/AR/0"]
         -- a SYN on an existing 4-tuple must reach that connection and no listener: silence and
         -- an ACK from that connection's endpoint are both fine, a SYN-ACK or RST is not
-        if mine == want || (exp == .silent && mine == [pre ++ "/A/0"]) then g
-        else g.fail s!"injectsyn {R17.epTok src}>{R17.epTok dst}: got {obs}, expected {want}"
+        let g := if mine == want || (exp == .silent && mine == [pre ++ "/A/0"]) then g
+          else g.fail s!"injectsyn {R17.epTok src}>{R17.epTok dst}: got {obs}, expected {want}"
+        -- a SYN-ACK means a half-open child now holds this 4-tuple (until it is reset, its listener
+        -- closes, or its retransmissions run out: see `pumpn`)
+        if mine == [pre ++ "/SA/0"] then
+          { g with live := { slot := 2000000 + src.port, host := d, key := ⟨dst.ip.v6, true, dst.ip, dst.port⟩,
+                             peer := some src, kind := 's', maybe := true } :: g.live }
+        else g
+  | .injectrst src dst =>
+    { g with live := g.live.filter fun x =>
+        !(x.slot ≥ 2000000 && x.peer == some src && (⟨x.key.addr, x.key.port⟩ : Ep) == dst) }
+  | .pumpn n =>
+    -- 18 silent egress passes exhaust a half-open child's SYN-ACK retransmissions
+    -- (`retxThreshold * (retxMax + 1)`): after that it must be gone, with its binding
+    if n ≥ retxThreshold * (retxMax + 1) then { g with live := g.live.filter fun x => !(x.slot ≥ 2000000) }
+    else g
   | _ => g
 
 end O17
